@@ -28,6 +28,9 @@ struct wrap_state {
   int (*stat_hook)(const char *, struct stat *);
   off_t (*lseek_hook)(int, off_t, int);
   char *(*realpath_hook)(const char *, char *);
+  int (*close_hook)(int);
+  const char *open_from; /* redirect open(open_from) to open_to */
+  const char *open_to;
   int capture_stderr;
   size_t stderr_len;
   char stderr_buf[65536];
